@@ -198,6 +198,7 @@ def gen_case(rng, stream, cls=None, with_gjk=True, nops=None):
     shape = gen_shape(rng, base, malformed, cls)
     ops = []
     n = nops or rng.choice([3, 5, 8, 12])
+    dirs = []
     for k in range(n):
         r = rng.random()
         if r < 0.35 or k == 0:
@@ -205,16 +206,43 @@ def gen_case(rng, stream, cls=None, with_gjk=True, nops=None):
         else:
             q = rng.choice(QUERIES if with_gjk else QUERIES[:5])
             if q == "s":
-                d, lay = gen_dir(rng, base, malformed)
+                # half of the support queries repeat a direction asked earlier in the history (before an update):
+                # an answer remembered per direction must not survive update_pose
+                if dirs and rng.random() < 0.5:
+                    d, lay = rng.choice(dirs)
+                else:
+                    d, lay = gen_dir(rng, base, malformed)
+                    dirs.append((d, lay))
                 ops.append({"op": "s", "d": d, "lay": lay})
             else:
                 ops.append({"op": q})
     # every history ends with the full battery so that the last update is always observed
-    d, lay = gen_dir(rng, base, malformed)
+    if dirs and rng.random() < 0.5:
+        d, lay = rng.choice(dirs)
+    else:
+        d, lay = gen_dir(rng, base, malformed)
     ops += [{"op": "s", "d": d, "lay": lay}, {"op": "f"}, {"op": "a"}, {"op": "c"}, {"op": "o"}]
     if with_gjk:
         ops.append({"op": "g"})
-    return {"stream": stream, "base": base, "shape": shape, "pose0": gen_pose(rng, base, malformed), "ops": ops}
+    case = {"stream": stream, "base": base, "shape": shape, "pose0": gen_pose(rng, base, malformed), "ops": ops}
+    if base == "G" and not malformed and rng.random() < 0.2:
+        # creeping motion far from the origin: the whole history lives at coordinates of a few hundred units and
+        # consecutive poses differ by translation steps of 1e-5 … 1e-7 of the coordinates (a slow conveyor, a simulation
+        # step): a pose update that is skipped because "nothing changed" relative to the size of the entries is visible
+        off = np.array([rng.choice([-1, 1]) * rng.uniform(150, 600) for _ in range(3)])
+        M = np.array(case["pose0"]["M"], dtype=float)
+        M[:3, 3] = off
+        case["pose0"]["M"] = M.tolist()
+        for o in ops:
+            if o["op"] == "u":
+                M = M.copy()
+                M[:3, 3] += np.abs(off) * np.array([rng.uniform(-1, 1) for _ in range(3)]) * 10 ** rng.uniform(-7, -5.2)
+                o["pose"]["M"] = M.tolist()
+        case["far"] = True
+    # a second collider constructed from the very same arrays (pose matrix / centre / normal / axes objects); it is moved
+    # elsewhere after every update of the collider under test (`[Disk(c, r, normal) for c in centers]`)
+    case["sibling"] = (not malformed) and rng.random() < 0.25
+    return case
 
 
 def inner_cls(shape):
@@ -288,14 +316,24 @@ class PoseSource:
         return big[:4, :4]
 
 
-def build(shape, P, fresh=False, rng_bit=0):
+def build(shape, P, fresh=False, rng_bit=0, share=None):
     """the constructor call that places `shape` at pose array P (as `atPose` in the Lean model:
     Sphere gets the view P[:3, 3] like broad_phase.py does, Disk/Ellipse contiguous copies of the slices);
-    fresh=True: the oracle's object (its own arrays; Sphere alternately from a copy)"""
+    fresh=True: the oracle's object (its own arrays; Sphere alternately from a copy);
+    share: dict filled by the first call and read by the second one, so that two colliders are constructed from
+    the SAME array objects"""
     from distance3d import colliders as C
     cls = shape["cls"]
     if cls == "margin":
-        return C.Margin(build(shape["inner"], P, fresh, rng_bit), shape["m"])
+        return C.Margin(build(shape["inner"], P, fresh, rng_bit, share), shape["m"])
+    if share is not None and cls in ("disk", "ellipse"):
+        if cls not in share:
+            share[cls] = (np.ascontiguousarray(P[:3, 3]), np.ascontiguousarray(P[:3, 2]) if cls == "disk"
+                          else np.ascontiguousarray(P[:3, :2].T), vec_arr(shape["radii"], shape["lay"]) if cls == "ellipse" else None)
+        c_, a_, r_ = share[cls]
+        if cls == "disk":
+            return C.Disk(c_, shape["r"], a_)
+        return C.Ellipse(c_, a_, r_)
     if cls == "box":
         return C.Box(P, vec_arr(shape["size"], shape["lay"]))
     if cls == "sphere":
@@ -429,8 +467,17 @@ def impl_run(case):
     sphere = C.Sphere(np.array(GJK_SPHERE[0], dtype=float), GJK_SPHERE[1])
     P0 = src.get(case["pose0"])
     lastM = case["pose0"]["M"]
+    sib = None
     try:
-        c = build(case["shape"], P0)
+        if case.get("sibling"):
+            cache = {}
+            c = build(case["shape"], P0, share=cache)
+            try:
+                sib = build(case["shape"], P0, share=cache)
+            except Exception:  # noqa
+                sib = None
+        else:
+            c = build(case["shape"], P0)
     except Exception as e:  # noqa
         return {"ctor_err": err_name(e), "msg": str(e)[:200], "steps": []}
     steps = [{"op": "new", "err": None, "val": None, "fields": dump(c), "m": mesh_of(c) is not None}]
@@ -445,6 +492,15 @@ def impl_run(case):
                 c.update_pose(P)
             except Exception as e:  # noqa
                 st["err"], st["msg"] = err_name(e), str(e)[:200]
+            if sib is not None:
+                # the sibling goes somewhere else (its own fresh pose array)
+                Q = np.array(lastM, dtype=float)
+                Q[:3, 3] += [1.0 + k, -2.0, 3.0]
+                Q[:3, :3] = Q[:3, :3].dot(np.array([[0.0, -1.0, 0.0], [1.0, 0.0, 0.0], [0.0, 0.0, 1.0]]))
+                try:
+                    sib.update_pose(Q)
+                except Exception:  # noqa
+                    pass
         else:
             mesh = mesh_of(c)
             try:
